@@ -324,6 +324,9 @@ func (x *fnCtx) runInstrs(st *State, b *ssa.BasicBlock, from int) {
 		in := b.Instrs[i]
 		if fr.isTop {
 			x.curBlock, x.curIdx = b, i
+			if !st.exitChecked && x.hasExit && x.unroll == 0 && !x.collecting {
+				x.checkLoopExit(st, fr, b, in)
+			}
 		}
 		switch v := in.(type) {
 		case *ssa.Phi:
